@@ -82,7 +82,7 @@ CLAIMS = {
     "C08": dict(
         text="Decides the table-construction clauses behind IsType: one-to-one Value->ConcreteType tagging, each tag inserted iff "
              "is_compatible(<its own type id>, pattern), every ProgramUpdate carrying tables recomputed by the compute_* functions from the FULL "
-             "merged program, update_program replacing them. No type test is evaluated; soundness of is_compatible is C09. Also: row p of the IsType table is compute_compatible_concrete_types(p) itself (not assembled from per-variant parts), and process handles are tagged with the entry function.",
+             "merged program, update_program replacing them. No type test is evaluated; soundness of is_compatible is C09. Also: row p of the IsType table is compute_compatible_concrete_types(p) itself (not assembled from per-variant parts), and process handles are tagged with the entry function; resource type ids are positions in a first-appearance (append-only) name list, so a merge never renumbers the id a live handle carries; the compiler omits a pattern's runtime IsType only under a static compatibility judgment.",
         design="§3 C08", technique="static analysis: HIR pattern matrices, MIR value-source slices and guarded reachability"),
     "C12": dict(
         text="Decides the TOTALITY half: an interval abstract interpretation with branch refinement, relational >= facts, range-iterator payloads, "
